@@ -162,6 +162,25 @@ func (user *User) UpdateUser(cmd []string) error {
 			user.IncludedCategories = []string{"*"}
 			continue
 		}
+		// Documented spellings for "every category" / "every command".
+		if strings.EqualFold(str, "+@all") || str == "+@*" {
+			user.IncludedCategories = []string{"*"}
+			user.ExcludedCategories = []string{}
+			continue
+		}
+		if strings.EqualFold(str, "-@all") || str == "-@*" {
+			user.ExcludedCategories = []string{"*"}
+			continue
+		}
+		if strings.EqualFold(str, "+all") {
+			user.IncludedCommands = []string{"*"}
+			user.ExcludedCommands = []string{}
+			continue
+		}
+		if strings.EqualFold(str, "-all") {
+			user.ExcludedCommands = []string{"*"}
+			continue
+		}
 		if len(str) > 3 && str[1] == '@' {
 			if str[0] == '+' {
 				user.IncludedCategories = append(user.IncludedCategories, str[2:])
